@@ -217,9 +217,16 @@ func (rl *RateLimiter) reload(previousGeneration *RateLimiter) {
 		return
 	}
 
+	// the previous generation may still be handling requests, so it must keep
+	// its limiters, 'inherited' records the ones which have been taken over.
+	inherited := map[*URLRule]struct{}{}
+
 OuterLoop:
 	for _, url := range rl.spec.URLs {
 		for _, prev := range previousGeneration.spec.URLs {
+			if _, ok := inherited[prev]; ok || prev.rl == nil {
+				continue
+			}
 			if !url.DeepEqual(&prev.URLRule) {
 				continue
 			}
@@ -230,7 +237,7 @@ OuterLoop:
 			url.Init()
 			rl.bindPolicyToURL(url)
 			url.rl = prev.rl
-			prev.rl = nil
+			inherited[prev] = struct{}{}
 			rl.setStateListenerForURL(url)
 			continue OuterLoop
 		}
